@@ -149,11 +149,80 @@ def obs_field(ver, o, c):
     return "?"
 
 
+class StrSub(str):
+    """a plain user subclass of str (tagged / 'safe' strings of frameworks)"""
+
+
+_ENUMS = {}
+_SUBCLS = {}
+N_VARIANTS = 16
+
+
+def variant_of(s):
+    """which way of supplying the argument / obtaining the object is used for this string (deterministic, so that a replay
+    reproduces it): 0 plain; 1 str subclass; 2 str-Enum member; 3 a trivial user subclass of the class; 4 copy.copy taken
+    BEFORE anything was asked, the original asked first; 5 copy.deepcopy; 6 pickle round trip (protocol 2); 7 pickle round
+    trip (highest protocol) after the object was hashed and asked"""
+    import zlib
+    k = (zlib.crc32(s.encode("utf-8", "replace")) >> 3) % N_VARIANTS
+    return k if k < 8 else 0
+
+
+def build(ver, s, rh=False, variant=None):
+    """the object the library builds for `s` (constructor or from_rh_vector), obtained the way `variant_of(s)` says.  Every
+    way must be indistinguishable from the plain one: the argument IS the same string, a trivial subclass adds nothing, a copy
+    or an unpickled object is the same value."""
+    im = impl()
+    k = variant_of(s) if variant is None else variant
+    cls = im.cls[ver]
+    arg = s
+    if k == 1:
+        arg = StrSub(s)
+    elif k == 2:
+        import enum
+        key = s
+        if key not in _ENUMS:
+            if len(_ENUMS) > 20000:
+                _ENUMS.clear()
+            try:
+                _ENUMS[key] = enum.Enum("Known", {"VECTOR": s}, type=str).VECTOR
+            except Exception:  # noqa
+                _ENUMS[key] = s
+        arg = _ENUMS[key]
+    elif k == 3:
+        if ver not in _SUBCLS:
+            _SUBCLS[ver] = type(str("Audited" + cls.__name__), (cls,), {"__doc__": "a trivial user subclass"})
+        cls = _SUBCLS[ver]
+    o = cls.from_rh_vector(arg) if rh else cls(arg)
+    if k == 4:
+        import copy
+        c = copy.copy(o)
+        try:
+            o.scores(), o.severities(), o.clean_vector()
+        except Exception:  # noqa
+            pass
+        return c
+    if k == 5:
+        import copy
+        return copy.deepcopy(o)
+    if k == 6:
+        import pickle
+        return pickle.loads(pickle.dumps(o, 2))
+    if k == 7:
+        import pickle
+        try:
+            hash(o), o.scores(), o.as_json(minimal=True)
+        except Exception:  # noqa
+            pass
+        return pickle.loads(pickle.dumps(o, pickle.HIGHEST_PROTOCOL))
+    return o
+
+
 def impl_construct(ver, mask, s, rh=False):
     """the implementation's answer to a `C`/`R` request, in the driver's output format"""
     im = impl()
     try:
-        o = im.cls[ver].from_rh_vector(s) if rh else im.cls[ver](s)
+        o = build(ver, s, rh=rh)
     except Exception as e:  # noqa
         n = err_name(ver, e)
         return "err\t" + n
